@@ -57,12 +57,17 @@ def run_one(m, tier='quick'):
 def main():
     args = sys.argv[1:]
     verbose = '-v' in args
-    args = [a for a in args if a != '-v']
+    args = [a for a in args if a not in ('-v', '--table')]
     ms = []
     for f in sorted(glob.glob(os.path.join(HERE, 'sa', 'mutants', '*.json'))):
         for m in json.load(open(f)):
             if not args or any(a in m['name'] or a in m['props'] for a in args):
                 ms.append(m)
+    if '--table' in sys.argv:
+        print('| kind | edit | checks | rule |\n|---|---|---|---|')
+        for m in ms:
+            print('| %s | %s | %s | %s |' % (m['kind'], m['name'], ', '.join(m['props']), m.get('rule') or '(any)'))
+        return 0
     bad = 0
     with concurrent.futures.ThreadPoolExecutor(max_workers=4) as ex:
         for m, ok, out in ex.map(run_one, ms):
